@@ -131,6 +131,79 @@ S5Scanlines(subj, clip, beams) ==
   /\ \A k \in 1..(Len(beams) - 1) : beams[k].y > beams[k + 1].y
   /\ \A k \in 1..Len(beams) : \E j \in 1..Len(subj \o clip) : \E i \in 1..Len((subj \o clip)[j]) : (subj \o clip)[j][i][2] = beams[k].y
 
+(***************************************************************************)
+(* S6: the intersections of one scan-beam.  Between scan-line y and the    *)
+(* next scan-line topY the order of the active edges changes from the      *)
+(* order at the bottom to the order at the top by adjacent transpositions, *)
+(* one per processed intersection node.  P[k] is the specification's copy  *)
+(* of the order after k nodes (indices into the recorded bottom list).     *)
+(* Every node must exchange two neighbours a (left) and b (right) that     *)
+(* really cross inside the beam: at the top a is no longer left of b       *)
+(* (exact x, one unit of slack for the rounded curX the implementation     *)
+(* compares), no pair is exchanged twice, the node's point lies inside the *)
+(* beam and near both edges, and when all nodes are processed the list is  *)
+(* in the order of the top.  This is the bubble-sort theorem of the Vatti  *)
+(* sweep: the processed nodes are exactly the inversions between bottom    *)
+(* and top order.                                                          *)
+(***************************************************************************)
+SwapAt(perm, p) == IF p \in 1..(Len(perm) - 1) THEN [perm EXCEPT ![p] = perm[p + 1], ![p + 1] = perm[p]] ELSE perm
+
+S6Intersections(beam, topY, r4) ==
+  LET n == Len(beam.ael)  m == Len(beam.xs)
+      ael == [i \in 1..n |-> AsEdge(beam.ael[i])]
+      P[k \in 0..m] == IF k = 0 THEN [i \in 1..n |-> i] ELSE SwapAt(P[k - 1], beam.xs[k].pos)
+      L(k) == P[k - 1][beam.xs[k].pos]            \* the two edges node k exchanges
+      R(k) == P[k - 1][beam.xs[k].pos + 1]
+  IN
+  /\ \A k \in 1..m : beam.xs[k].left /\ beam.xs[k].pos \in 1..(n - 1)
+  /\ \A k \in 1..m :
+       LET a == ael[L(k)]  b == ael[R(k)]  pt == beam.xs[k].pt IN
+       /\ LeqXOn(b, a, topY, 1)
+       /\ pt[2] >= topY /\ pt[2] <= beam.y
+       /\ NearSeg(pt, a.bot, a.top, r4) /\ NearSeg(pt, b.bot, b.top, r4)
+  /\ \A k1 \in 1..m : \A k2 \in (k1 + 1)..m : {L(k1), R(k1)} # {L(k2), R(k2)}
+  /\ \A i \in 1..(n - 1) : LeqXOn(ael[P[m][i]], ael[P[m][i + 1]], topY, 1)
+
+S6All(beams, r4) ==
+  \A k \in 1..Len(beams) :
+     IF k = Len(beams) THEN beams[k].xs = <<>>
+     ELSE S6Intersections(beams[k], beams[k + 1].y, r4)
+
+(***************************************************************************)
+(* R1..R3: the output records the sweep leaves behind (before collinear    *)
+(* cleaning, self-intersection repair and path building).                  *)
+(*  R1  every record with points is a consistent doubly linked ring (same  *)
+(*      length both ways, next/prev inverse of each other) whose points    *)
+(*      all belong to it, and no record is still attached to an edge;      *)
+(*  R2  records are numbered by position, getRealOutRec terminates, and    *)
+(*      the owner relation is a forest when a PolyTree is built;           *)
+(*  R3  the raw rings already describe the operation's region;             *)
+(*  R4  the later passes only tidy the representation: the final solution  *)
+(*      describes the same region as the raw rings.                        *)
+(***************************************************************************)
+R1Rings(rings) ==
+  \A i \in 1..Len(rings) :
+     LET r == rings[i] IN
+     /\ r.frontNil /\ r.backNil
+     /\ r.hasPts => (r.nFwd = r.nBack /\ r.linksOK /\ r.opsOwned /\ Len(r.pts) = r.nFwd)
+     /\ ~r.hasPts => (r.nFwd = 0 /\ r.pts = <<>>)
+
+\* Up[k][i]: the record reached from record i after k steps of getRealOutRec (stop at a record with points; 0: none)
+R2Owners(rings, tree) ==
+  LET n == Len(rings)
+      Real[k \in 0..n] == [i \in 1..n |-> IF k = 0 THEN i ELSE
+                              LET j == Real[k - 1][i] IN IF j = 0 \/ rings[j].hasPts THEN j ELSE rings[j].owner + 1]
+      Up[k \in 0..n] == [i \in 1..n |-> IF k = 0 THEN i ELSE
+                            LET j == Up[k - 1][i] IN IF j = 0 THEN 0 ELSE rings[j].owner + 1]
+  IN  /\ \A i \in 1..n : rings[i].idx = i - 1 /\ rings[i].owner \in -1..(n - 1) /\ rings[i].owner # i - 1
+      \* getRealOutRec terminates from every record
+      /\ \A i \in 1..n : Real[n][i] = 0 \/ rings[Real[n][i]].hasPts
+      \* when a PolyTree is being built the owner relation is a forest (setOwner refuses cycles); for flat
+      \* results owners of merged records are assigned without that test and only getRealOutRec uses them
+      /\ tree => \A i \in 1..n : Up[n][i] = 0
+
+RawRings(rings) == LET s == SelectSeq(rings, LAMBDA r : r.hasPts /\ ~r.open) IN [i \in 1..Len(s) |-> s[i].pts]
+
 SweepOK(e) ==
   LET inputs == InputEdges(e.subj, e.clip) IN
   /\ S5Scanlines(e.subj, e.clip, e.beams)
